@@ -161,6 +161,11 @@ func runSelfValidation(pc *propertyCheck, R *Run, repo, verif string) {
 			jobs = append(jobs, job{filepath.Base(filepath.Dir(m)), "seeded", filepath.Join(filepath.Dir(m), "patch.diff"), nil, false})
 		}
 	}
+	// behaviour-preserving refactorings written by independent agents (neutral/*.diff): every property must stay silent
+	neutrals, _ := filepath.Glob(filepath.Join(verif, "neutral", "*.diff"))
+	for _, n := range neutrals {
+		jobs = append(jobs, job{"neutral/" + strings.TrimSuffix(filepath.Base(n), ".diff"), "neutral", n, nil, true})
+	}
 	sort.Slice(jobs, func(i, j int) bool { return jobs[i].name < jobs[j].name })
 	results := make([]variantResult, len(jobs))
 	sem := make(chan struct{}, 8)
